@@ -9,3 +9,4 @@ import Pdpy11.Props.C13
 import Pdpy11.Props.C19
 import Pdpy11.Props.C05
 import Pdpy11.Props.C17
+import Pdpy11.Props.C18
